@@ -1230,7 +1230,24 @@ class LinAnalysis:
                 return self.ev(e["a"], st, fr)
             if t is False:
                 return self.ev(e["b"], st, fr)
-            return self.fresh_of_type(st, f, e.get("t"))
+            # undecided: a value between the two arms when they are ordered (`c ? n : 0` with n >= 0 gives 0 <= r <= n)
+            has_effect = any(n.get("k") == "call" or (n.get("k") == "un" and n.get("op") in ("++", "--")) or
+                             (n.get("k") == "bin" and n.get("op", "").endswith("=") and n["op"] not in ("==", "!=", "<=", ">="))
+                             for arm in (e["a"], e["b"]) for n in walk(arm))
+            r = self.fresh_of_type(st, f, e.get("t"))
+            if not has_effect and isinstance(r, Lin):
+                self.noeffect += 1
+                try:
+                    va, vb = self.ev(e["a"], st, fr), self.ev(e["b"], st, fr)
+                finally:
+                    self.noeffect -= 1
+                if isinstance(va, Lin) and isinstance(vb, Lin):
+                    for lo, hi in ((va, vb), (vb, va)):
+                        if st.entails(hi - lo):
+                            st.add(r - lo)
+                            st.add(hi - r)
+                            break
+            return r
         if k == "call":
             # calls are evaluated as CFG elements by transfer(); reaching one here means it was not cached
             return self.fresh_of_type(st, f, e.get("t"))
@@ -1923,8 +1940,16 @@ class LinAnalysis:
                 nv = ObjPtr(v.obj, v.prefix, False)
             if loc is not None and not isinstance(loc, MemLoc):
                 st.env[loc] = nv
-            if "sid" in strip(e, all_casts=True):
-                st.cache[(fr.id, strip(e, all_casts=True)["sid"])] = nv
+            x = e
+            while isinstance(x, dict):
+                # the value was read as an element of its own before the test: what is remembered for that element (the
+                # conversion wrappers around the variable included) is the refined pointer from here on
+                if "sid" in x:
+                    st.cache[(fr.id, x["sid"])] = nv
+                if x.get("k") == "cast" and x.get("ck") in ("LValueToRValue", "NoOp", "BitCast", "PointerToBoolean"):
+                    x = x["e"]
+                else:
+                    break
             return [st]
         if isinstance(v, AddrOf):
             return [] if isnull else [st]
